@@ -2,7 +2,7 @@
 #define HX_HAS_ROTATION 0
 #include "generic.h"
 namespace hx {
-using B_b02 = manif::Bundle<double, manif::R3>;
+using B_b02 = manif::Bundle<HX_SC, manif::R3>;
 template <> struct Extra<B_b02> {
   static bool run(const Req& r, Resp& R) {
     // element<i>() views alias exactly the i-th element's coefficients
